@@ -13,7 +13,7 @@ from .. import ir
 from ..paths import paths, walk, root, Raised
 from ..report import AnalysisError
 from .algebra import identical
-from .common import const_value, zero_test, nonzero_test
+from .common import const_value, zero_test, nonzero_test, return_cases
 
 META = {
     "explanation": "Typestate/COUNT over exception-aware paths of MultiValueTracker.update (per-iteration paths of the "
@@ -138,9 +138,10 @@ def _update(run, prog, cls):
         run.analysed["paths"] += len(ps)
         bad = False
         for p in ps:
-            ups = [e for e in p.events if isinstance(e, (ir.Mut, ir.Call)) and getattr(e, "method", None) == "update"
-                   and _tracker_of(e, T, key)]
             creates = [e for e in p.events if isinstance(e, ir.SubStore) and e.cont == T]
+            made = tuple(c.value for c in creates if c.key == key)
+            ups = [e for e in p.events if isinstance(e, (ir.Mut, ir.Call)) and getattr(e, "method", None) == "update"
+                   and _tracker_of(e, T, key, made)]
             adds = [e for e in p.events if isinstance(e, ir.Call) and e.callee == f"self.{kf}" and e.method == "add"]
             adds += [e for e in p.events if isinstance(e, ir.Mut) and e.recv == K and e.method == "add"]
             direct = [e for e in p.events if isinstance(e, ir.AttrStore) and root(e.obj) in (T,) + tuple(
@@ -239,9 +240,10 @@ def _key_iter_forms(values):
     return [values, ("new", "@", "set", (values,)), ("new", "@", "set", (k,)), k]
 
 
-def _tracker_of(e, T, key):
+def _tracker_of(e, T, key, created=()):
+    """The receiver is the key's tracker: T[key], or the very object stored into T[key] on this path."""
     recv = e.recv
-    return recv == ("sub", T, key)
+    return recv == ("sub", T, key) or recv in created
 
 
 def _nomut(run, prog, cls):
@@ -305,31 +307,32 @@ def _getters(run, prog, cls):
                     total_forms.append(t)
     seen_kinds = set()
     tries = [ev for ev, _ in walk(s.events, structural=True) if isinstance(ev, ir.Try)]
-    for ev, ctx in rets:
-        v = ev.value
-        gtxt = " & ".join(ir.show_nl(g) for g in ctx.guards) or "always"
+    from .boolalg import holds
+    for guards, v, line, ctx in return_cases(s):
+        gtxt = " & ".join(ir.show_nl(g) for g in guards) or "always"
         in_handler = [h for t, h in ctx.tries if h != "body"]
         if v == rawt:
-            few = any(g[0] == "cmp" and g[1] in ("<=", "<") and g[2][0] == "fn" and g[2][1] == "len" and
-                      g[2][2][0] in (K, T, rawt) and const_value(g[3]) in (1, 2) for g in ctx.guards)
-            run.check(few, "FORMULA", "N1.raw", f"{s.path}:{ev.line}", fq, f"raw return under [{gtxt}]",
+            few = any(holds(guards, ("cmp", op, ("fn", "len", (c,)), ("const", n)))
+                      for c in (K, T, rawt) for op, n in (("<=", 1), ("<", 2)))
+            run.check(few, "FORMULA", "N1.raw", f"{s.path}:{line}", fq, f"raw return under [{gtxt}]",
                       f"raw values may only be returned for at most one key; returned under [{gtxt}]",
                       "<= 1 key: raw values")
             seen_kinds.add("raw")
             continue
         if v[0] == "comp" and v[1] == "dict" and const_value(v[5]) == 0:
-            zero_t = any(zero_test(g, total_forms) for g in ctx.guards)
+            zero_t = any(zero_test(g, total_forms) for g in guards)
             if in_handler and not zero_t:
-                run.fail("ZERODIV", "N1.zero", f"{s.path}:{ev.line}", fq,
+                run.fail("ZERODIV", "N1.zero", f"{s.path}:{line}", fq,
                          f"zero fallback in `except {'/'.join(in_handler[0].exc)}`",
                          "the all-zero fallback is reached only through `except ZeroDivisionError`; NumPy scalar values "
                          "divide to inf/nan without raising, so a zero sum yields NaN/inf")
             else:
-                run.check(zero_t, "ZERODIV", "N1.zero", f"{s.path}:{ev.line}", fq, f"zero fallback under [{gtxt}]",
+                run.check(zero_t, "ZERODIV", "N1.zero", f"{s.path}:{line}", fq, f"zero fallback under [{gtxt}]",
                           f"the all-zero result must be selected by an explicit test `sum == 0`; it is returned under [{gtxt}]",
                           "zero sum: explicit == 0 test selects the all-0.0 dict")
             keys_ok = v[3] == rawt or (v[3][0] == "res" and v[3][2] in (".keys", ".items") and v[3][3][0] == rawt)
-            run.check(keys_ok, "FORMULA", "N1.zero-keys", f"{s.path}:{ev.line}", fq, f"zero dict over {ir.show_nl(v[3])}",
+            run.check(keys_ok and v[4] == ("elem", v[2]), "FORMULA", "N1.zero-keys", f"{s.path}:{line}", fq,
+                      f"zero dict over {ir.show_nl(v[3])}",
                       "the all-zero result must cover every tracked key", "zeros for every tracked key")
             seen_kinds.add("zero")
             continue
@@ -338,15 +341,15 @@ def _getters(run, prog, cls):
             over_items = v[3][0] == "res" and v[3][2] == ".items" and v[3][3][0] == rawt
             shape = over_items and v[4] == ("tget", ("elem", v[2]), 0) and num == ("tget", ("elem", v[2]), 1)
             shape = shape or (v[3] in (rawt,) and v[4] == ("elem", v[2]) and num == ("sub", rawt, ("elem", v[2])))
-            run.check(shape and den in total_forms, "FORMULA", "N1.ratio", f"{s.path}:{ev.line}", fq,
+            run.check(shape and den in total_forms, "FORMULA", "N1.ratio", f"{s.path}:{line}", fq,
                       f"normalised value {ir.show_nl(v[5])}",
                       f"every value must be divided by the sum of all tracked values; found {ir.show_nl(v[5])}",
                       "value / sum(all values) for every key")
-            nonzero = any(nonzero_test(g, total_forms) for g in ctx.guards)
+            nonzero = any(nonzero_test(g, total_forms) for g in guards)
             in_try = [t for t, h in ctx.tries if h == "body"]
             if not nonzero:
-                how = "guarded only by `except ZeroDivisionError`" if in_try else "unguarded"
-                run.fail("ZERODIV", "N1.div", f"{s.path}:{ev.line}", fq, f"division {how}",
+                how = "guarded only by `except ZeroDivisionError`" if in_try or tries else "unguarded"
+                run.fail("ZERODIV", "N1.div", f"{s.path}:{line}", fq, f"division {how}",
                          f"the division by the sum is {how}: NumPy scalars do not raise on a zero sum, the result is "
                          f"inf/nan instead of all zeros")
             else:
@@ -360,7 +363,7 @@ def _getters(run, prog, cls):
                      "sum, the result is inf/nan instead of all zeros")
             seen_kinds.update({"zero", "ratio"})
             continue
-        run.fail("FORMULA", "N1.shape", f"{s.path}:{ev.line}", fq, f"returns {ir.show_nl(v)[:120]}",
+        run.fail("FORMULA", "N1.shape", f"{s.path}:{line}", fq, f"returns {ir.show_nl(v)[:120]}",
                  f"unexpected result shape {ir.show_nl(v)[:200]}")
     run.check({"raw", "zero", "ratio"} <= seen_kinds, "FORMULA", "N1.cases", f"{s.path}:{s.fn.lineno}", fq,
               f"cases {sorted(seen_kinds)}", f"get_normalized must distinguish <=1 key / zero sum / general; found {sorted(seen_kinds)}",
